@@ -220,7 +220,7 @@ PROPERTIES["C06"]["explanation"] += (" The simulator evaluates the solver's valu
 
 for _p in ("C07", "C12", "C19"):
     PROPERTIES[_p]["rules"] += [sig.no_decision_on_defaults]
-    PROPERTIES[_p]["explanation"] += " No decision depends on whether an argument of a user function has a default value (R16.DEFAULTS)."
+    PROPERTIES[_p]["explanation"] += " No decision depends on whether an argument of a user function has a default value, nor -- outside the calling-convention converters of lcm.functools -- on its kind (R16.DEFAULTS, each clause with a positive control in the fixture)."
 
 PROPERTIES["C20"]["rules"] += [bel.logsumexp_shift]
 PROPERTIES["C20"]["explanation"] += " The shift inside exp is the maximum of the row's own segment and is added back (R13.LSE)."
@@ -236,3 +236,7 @@ PROPERTIES["C12"]["rules"] += [bel.bellman_form]
 PROPERTIES["C12"].setdefault("filter", {})["R13.ALG1"] = lambda o: o.key.startswith(("AX6", "R13.ALG1"))
 PROPERTIES["C12"]["explanation"] += (" Node values and node weights of stochastic states are laid out on the same axes (AX6): otherwise an accepted "
                                      "model with stochastic states of different sizes fails with a broadcasting error at the first solve.")
+
+PROPERTIES["C14"]["rules"] += [guard.interpolation_axes_guard]
+PROPERTIES["C14"]["explanation"] += " The axis-order guard is evaluated on all 2080 (axis order of <= 4 names, interpolated subset) witnesses: it raises iff the interpolated axes are not the trailing axes, and the representation applies it unconditionally (R12 INTERPAXES)."
+PROPERTIES["C12"]["rules"] += [guard.interpolation_axes_guard]
